@@ -234,13 +234,14 @@ Ltac det_step :=
   | |- det (match_indeterminate _ _) => apply det_indeterminate
   | |- det (match_lang _ _ _) => apply det_lang
   | |- det (existsM _ _) => apply det_existsM; intros ?
+  | |- det (forallM _ _) => apply det_forallM; intros ?
   | |- det (allM_noshort _ _) => apply det_allM; intros ?
   | |- det (sl_loop _ _ _ _) => apply det_sl_loop; intros ?
   | |- det (nth_core _ _ _ _ _ _) => apply det_nth_core; intros ?
   | |- det (bindM _ _) => apply det_bind; [| intros ?]
   | H : forall e p l, det (match_selectors _ _ _ e p l) |- det (match_selectors _ _ _ _ _ _) => apply H
   | H : forall e p r, det (match_relations _ _ _ e p r) |- det (match_relations _ _ _ _ _ _) => apply H
-  | H : forall e p n, det (match_nth _ _ _ e p n) |- det (match_nth _ _ _ _ _ _) => apply H
+  | H : forall e p n, det (match_nth1 _ _ _ e p n) |- det (match_nth1 _ _ _ _ _ _) => apply H
   | H : forall e p tag ids classes attrs nth subs relation contains lang flags, det (match_compound _ _ _ e p tag ids classes attrs nth subs relation contains lang flags)
     |- det (match_compound _ _ _ _ _ _ _ _ _ _ _ _ _ _ _) => apply H
   | |- det (if ?b then _ else _) => destruct b
@@ -253,14 +254,14 @@ Theorem det_matcher : forall fuel,
   (forall e p tag ids classes attrs nth subs relation contains lang flags,
      det (match_compound bidi cx fuel e p tag ids classes attrs nth subs relation contains lang flags)) /\
   (forall e p relation, det (match_relations bidi cx fuel e p relation)) /\
-  (forall e p nth, det (match_nth bidi cx fuel e p nth)).
+  (forall e p n, det (match_nth1 bidi cx fuel e p n)).
 Proof.
   induction fuel as [|f (IHs & IHc & IHr & IHn)].
   - repeat split; intros; apply det_raise.
   - split; [|split; [|split]].
-    + intros e p l. cbn [match_selectors match_compound match_relations match_nth]; fold (match_compound bidi cx) (match_selectors bidi cx) (match_relations bidi cx) (match_nth bidi cx). repeat det_step.
-    + intros. cbn [match_selectors match_compound match_relations match_nth]; fold (match_compound bidi cx) (match_selectors bidi cx) (match_relations bidi cx) (match_nth bidi cx). repeat det_step.
-    + intros e p relation. cbn [match_selectors match_compound match_relations match_nth]; fold (match_compound bidi cx) (match_selectors bidi cx) (match_relations bidi cx) (match_nth bidi cx).
+    + intros e p l. cbn [match_selectors match_compound match_relations match_nth1]; fold (match_compound bidi cx) (match_selectors bidi cx) (match_relations bidi cx) (match_nth1 bidi cx). repeat det_step.
+    + intros. cbn [match_selectors match_compound match_relations match_nth1]; fold (match_compound bidi cx) (match_selectors bidi cx) (match_relations bidi cx) (match_nth1 bidi cx). repeat det_step.
+    + intros e p relation. cbn [match_selectors match_compound match_relations match_nth1]; fold (match_compound bidi cx) (match_selectors bidi cx) (match_relations bidi cx) (match_nth1 bidi cx).
       destruct (sl_sels relation) as [|[|? ? ? ? ? ? ? rt ? ? ?] ?]; try apply det_ret.
       destruct rt as [r|]; [|apply det_ret].
       destruct (str_eqb r REL_PARENT).
@@ -269,7 +270,7 @@ Proof.
         intros n. induction n as [|n IHup]; intros q; [apply det_ret|].
         cbv beta iota. repeat det_step. apply IHup. }
       repeat det_step.
-    + intros e p nth. cbn [match_selectors match_compound match_relations match_nth]; fold (match_compound bidi cx) (match_selectors bidi cx) (match_relations bidi cx) (match_nth bidi cx). destruct nth as [|[a var b of_type last s] rest]; [apply det_ret|].
+    + intros e p n. cbn [match_selectors match_compound match_relations match_nth1]; fold (match_compound bidi cx) (match_selectors bidi cx) (match_relations bidi cx) (match_nth1 bidi cx). destruct n as [a var b of_type last s].
       repeat det_step.
 Qed.
 
@@ -357,6 +358,8 @@ Proof.
   - split; [reflexivity | exact Hg1].
   - destruct (parent_path p) as [pp|]; [exact (IH pp m1 Hg1) | split; [reflexivity | exact Hg1]].
 Qed.
+Lemma det_match_nth_list fuel e p nth : det (match_nth bidi cx fuel e p nth).
+Proof. unfold match_nth. apply det_forallM. intros n. apply det_matcher. Qed.
 End Hist.
 
 (* ---- API level: each call builds a fresh matcher, so NOTHING is carried from call to call; within a call
